@@ -86,7 +86,7 @@ def run(ctx):
         (("u64", "ipc"), ("slice", "local"), ("slice", "ipc"), ("u64", "local"))
     trace, jobs = ps.roundtrip(ctx, PID, TARGETS, tail, NEED_EVENTS,
                                nsim=10 if quick else 120, depth=40 if quick else 60,
-                               ngen=10, steps=140 if quick else 80, variants=variants)
+                               ngen=10, steps=140 if quick else 80, variants=variants, scripted=ps.history_matrix_jobs(variants))
     if not quick:
         ps.selftest(ctx, PID, trace, lambda r: r.get("a") == "recv" and r.get("r") == "some",
                     lambda r: r.update(id=r["id"] + 1), "received_id_changed")
